@@ -243,11 +243,12 @@ func (c *Collection) Pull(ctx context.Context, opts ...ReadOption) <-chan *Colle
 	readConfig := ComputeReadConfig(opts...)
 	filter := readConfig.ResponseFilter()
 
-	emit, currentValues := c.onUpdate(ctx, readConfig)
+	listen, currentValues := c.onUpdate(ctx, readConfig)
 	send := make(chan *CollectionChange)
 
 	go func() {
 		defer close(send)
+		emit := listen()
 
 		if len(currentValues) > 0 {
 			sort.Slice(currentValues, func(i, j int) bool {
@@ -331,21 +332,38 @@ func (c *Collection) PullID(ctx context.Context, id string, opts ...ReadOption) 
 	return send
 }
 
-func (c *Collection) onUpdate(ctx context.Context, config *ReadRequest) (<-chan any, []idItem) {
-	var res []idItem
-	if !config.UpdatesOnly {
-		c.mu.RLock()
-		defer c.mu.RUnlock()
-		res = c.itemSlice(config)
+// onUpdate captures the current items (unless only updates were asked for) and returns them along with a func
+// that subscribes to the changes that follow them. The func must be called exactly once.
+//
+// The subscription takes its place in the publish order at the moment the items are captured: changes committed
+// before that moment are part of the items and are never also delivered as events, even if their writer has not
+// published them yet; changes committed after it are all delivered.
+func (c *Collection) onUpdate(ctx context.Context, config *ReadRequest) (listen func() <-chan any, res []idItem) {
+	subscribe := func() <-chan any {
+		ch := c.bus.Listen(ctx)
+		if !config.Backpressure {
+			ch = mergeCollectionExcess(ch)
+		}
+		return ch
 	}
 
+	if config.UpdatesOnly {
+		verifhook.At("col.sub.afterSnapshot", &c.mu, nil)
+		ch := subscribe()
+		return func() <-chan any { return ch }, nil
+	}
+
+	c.mu.RLock()
+	res = c.itemSlice(config)
+	ticket := c.pub.enqueue() // writers are excluded by the read lock, so this orders us against every commit
 	verifhook.At("col.sub.afterSnapshot", &c.mu, nil)
-	ch := c.bus.Listen(ctx)
-	if !config.Backpressure {
-		ch = mergeCollectionExcess(ch)
-	}
+	c.mu.RUnlock()
 
-	return ch, res
+	return func() <-chan any {
+		var ch <-chan any
+		c.pub.publish(ticket, func() { ch = subscribe() })
+		return ch
+	}, res
 }
 
 // Clock returns the clock used by this resource for reporting time.
